@@ -478,16 +478,18 @@ package spine
 //@   let S = message.FeatureRemote.Device().Sender()
 //@   let K = rn[S]
 //@   let CLS = message.CmdClassifier
+//@   define OK = sendfails == old(sendfails)
 //@   define ANS(k) = answers(S, k, message.RequestHeader, self.Address())
+//@   ensures invoked: hmn == old(hmn) + 1 && sendfails >= old(sendfails)
 //@   ensures others: forall s any :: s != S ==> rn[s] == old(rn)[s]
 //@   ensures older: forall k int :: k < K ==> rcls[S][k] == old(rcls)[S][k] && rerr[S][k] == old(rerr)[S][k]
-//@   ensures rejected-silent: result != nil ==> rn[S] == K
-//@   ensures read: result == nil && CLS == model.CmdClassifierTypeRead ==> rn[S] == K + 1 && rcls[S][K] == model.CmdClassifierTypeReply && ANS(K)
+//@   ensures rejected-silent: result != nil ==> rn[S] == K && result.ErrorNumber != model.ErrorNumberTypeNoError
+//@   ensures read: OK && result == nil && CLS == model.CmdClassifierTypeRead ==> rn[S] == K + 1 && rcls[S][K] == model.CmdClassifierTypeReply && ANS(K)
 //@   ensures passive: result == nil && (CLS == model.CmdClassifierTypeReply || CLS == model.CmdClassifierTypeNotify || CLS == model.CmdClassifierTypeResult) ==> rn[S] == K
 //@   ensures call: result == nil && CLS == model.CmdClassifierTypeCall ==> rn[S] == K || (rn[S] == K + 1 && rcls[S][K] == model.CmdClassifierTypeReply && ANS(K))
 //@   ensures write: result == nil && CLS == model.CmdClassifierTypeWrite ==> rn[S] == K || (rn[S] == K + 1 && rcls[S][K] == model.CmdClassifierTypeResult && ANS(K))
 //@   ensures bounded: K <= rn[S] && rn[S] <= K + 1
-//@   modifies @RESP, @PUBLISH, world, held, spawn
+//@   modifies @RESP, @PUBLISH, world, held, spawn, sendfails, hmn
 
 //@ func (*DeviceLocal).ProcessCmd
 //@   requires r != nil && remoteDevice != nil && datagram.Header.AddressDestination != nil && datagram.Header.AddressSource != nil && datagram.Header.CmdClassifier != nil && len(datagram.Payload.Cmd) > 0
@@ -499,16 +501,17 @@ package spine
 //@   let CLS = *datagram.Header.CmdClassifier
 //@   let ACK = datagram.Header.AckRequest != nil && *datagram.Header.AckRequest
 //@   define HDR = datagram.Header
+//@   define OK = sendfails == old(sendfails)
 //@   define isResp(k) = rcls[S][k] == model.CmdClassifierTypeResult || rcls[S][k] == model.CmdClassifierTypeReply
 //@   ensures[C01] no-result-for-result: CLS == model.CmdClassifierTypeResult ==> forall k int :: K <= k && k < rn[S] ==> rcls[S][k] != model.CmdClassifierTypeResult
-//@   ensures[C01] unknown-destination: LF == nil && CLS != model.CmdClassifierTypeResult ==> rn[S] == K + 1 && rcls[S][K] == model.CmdClassifierTypeResult && rerr[S][K] == model.ErrorNumberTypeDestinationUnknown && rref[S][K] == old(datagram.Header.MsgCounter) && rdst[S][K] == old(datagram.Header.AddressSource) && result != nil
-//@   ensures[C01] rejected: LF != nil && result != nil && CLS != model.CmdClassifierTypeResult ==> rn[S] == K + 1 && rcls[S][K] == model.CmdClassifierTypeResult && rerr[S][K] != model.ErrorNumberTypeNoError && rref[S][K] == old(datagram.Header.MsgCounter) && rdst[S][K] == old(datagram.Header.AddressSource) && rsdev[S][K] == LF.Address().Device
-//@   ensures[C01] accepted-read: result == nil && CLS == model.CmdClassifierTypeRead ==> rn[S] == K + 1 && rcls[S][K] == model.CmdClassifierTypeReply && rref[S][K] == old(datagram.Header.MsgCounter) && rdst[S][K] == old(datagram.Header.AddressSource) && rsdev[S][K] == LF.Address().Device
-//@   ensures[C01] accepted-ack: result == nil && ACK && (CLS == model.CmdClassifierTypeCall || CLS == model.CmdClassifierTypeReply || CLS == model.CmdClassifierTypeNotify) ==> rn[S] >= K + 1 && rn[S] <= K + 2 && rcls[S][rn[S] - 1] == model.CmdClassifierTypeResult && rerr[S][rn[S] - 1] == model.ErrorNumberTypeNoError && rref[S][rn[S] - 1] == old(datagram.Header.MsgCounter) && rdst[S][rn[S] - 1] == old(datagram.Header.AddressSource) && rsdev[S][rn[S] - 1] == LF.Address().Device && (rn[S] == K + 2 ==> rcls[S][K] == model.CmdClassifierTypeReply && CLS == model.CmdClassifierTypeCall)
+//@   ensures[C01] unknown-destination: OK && LF == nil && CLS != model.CmdClassifierTypeResult ==> rn[S] == K + 1 && rcls[S][K] == model.CmdClassifierTypeResult && rerr[S][K] == model.ErrorNumberTypeDestinationUnknown && rref[S][K] == old(datagram.Header.MsgCounter) && rdst[S][K] == old(datagram.Header.AddressSource) && result != nil
+//@   ensures[C01] rejected: OK && LF != nil && result != nil && CLS != model.CmdClassifierTypeResult ==> rn[S] == K + 1 && rcls[S][K] == model.CmdClassifierTypeResult && rerr[S][K] != model.ErrorNumberTypeNoError && rref[S][K] == old(datagram.Header.MsgCounter) && rdst[S][K] == old(datagram.Header.AddressSource) && rsdev[S][K] == LF.Address().Device
+//@   ensures[C01] accepted-read: OK && result == nil && CLS == model.CmdClassifierTypeRead ==> rn[S] == K + 1 && rcls[S][K] == model.CmdClassifierTypeReply && rref[S][K] == old(datagram.Header.MsgCounter) && rdst[S][K] == old(datagram.Header.AddressSource) && rsdev[S][K] == LF.Address().Device
+//@   ensures[C01] accepted-ack: OK && result == nil && ACK && (CLS == model.CmdClassifierTypeCall || CLS == model.CmdClassifierTypeReply || CLS == model.CmdClassifierTypeNotify) ==> rn[S] >= K + 1 && rn[S] <= K + 2 && rcls[S][rn[S] - 1] == model.CmdClassifierTypeResult && rerr[S][rn[S] - 1] == model.ErrorNumberTypeNoError && rref[S][rn[S] - 1] == old(datagram.Header.MsgCounter) && rdst[S][rn[S] - 1] == old(datagram.Header.AddressSource) && rsdev[S][rn[S] - 1] == LF.Address().Device && (rn[S] == K + 2 ==> rcls[S][K] == model.CmdClassifierTypeReply && CLS == model.CmdClassifierTypeCall)
 //@   ensures[C01] accepted-noack: result == nil && !ACK && (CLS == model.CmdClassifierTypeCall || CLS == model.CmdClassifierTypeReply || CLS == model.CmdClassifierTypeNotify) ==> rn[S] <= K + 1 && (rn[S] == K + 1 ==> rcls[S][K] == model.CmdClassifierTypeReply && CLS == model.CmdClassifierTypeCall)
 //@   ensures[C01] accepted-result: result == nil && CLS == model.CmdClassifierTypeResult ==> rn[S] == K
 //@   ensures[C01] at-most: rn[S] <= K + 2 && rn[S] >= K
 //@   ensures[C01] others: forall s any :: s != S ==> rn[s] == old(rn)[s]
-//@   ensures[C03] gate-permission: CLS == model.CmdClassifierTypeWrite && LF != nil && cmdHasData(datagram.Payload.Cmd[0]) && cmdHasFct(datagram.Payload.Cmd[0]) && !(has(LF.Operations(), cmdFct(datagram.Payload.Cmd[0])) && LF.Operations()[cmdFct(datagram.Payload.Cmd[0])].Write()) ==> result != nil && rn[S] == K + 1 && rcls[S][K] == model.CmdClassifierTypeResult && rerr[S][K] != model.ErrorNumberTypeNoError && hmn == old(hmn)
-//@   ensures[C03] gate-binding: CLS == model.CmdClassifierTypeWrite && LF != nil && !asIface(r, api.DeviceLocalInterface).BindingManager().HasLocalFeatureRemoteBinding(LF.Address(), RF.Address()) ==> result != nil && rn[S] == K + 1 && rcls[S][K] == model.CmdClassifierTypeResult && rerr[S][K] != model.ErrorNumberTypeNoError && hmn == old(hmn)
-//@   modifies @RESP, @PUBLISH, world, held, spawn, hmn
+//@   ensures[C03] gate-permission: OK && CLS == model.CmdClassifierTypeWrite && LF != nil && cmdHasData(datagram.Payload.Cmd[0]) && cmdHasFct(datagram.Payload.Cmd[0]) && old(!(has(LF.Operations(), cmdFct(datagram.Payload.Cmd[0])) && LF.Operations()[cmdFct(datagram.Payload.Cmd[0])].Write())) ==> result != nil && rn[S] == K + 1 && rcls[S][K] == model.CmdClassifierTypeResult && rerr[S][K] != model.ErrorNumberTypeNoError && hmn == old(hmn)
+//@   ensures[C03] gate-binding: OK && CLS == model.CmdClassifierTypeWrite && LF != nil && old(!r.bindingManager.HasLocalFeatureRemoteBinding(LF.Address(), RF.Address())) ==> result != nil && rn[S] == K + 1 && rcls[S][K] == model.CmdClassifierTypeResult && rerr[S][K] != model.ErrorNumberTypeNoError && hmn == old(hmn)
+//@   modifies @RESP, @PUBLISH, world, held, spawn, hmn, sendfails
